@@ -21,6 +21,10 @@ func (fx *FuncExec) call(ps *pathState, x *ssa.Call) {
 	c := fx.c
 	cc := x.Common()
 	if b, ok := cc.Value.(*ssa.Builtin); ok {
+		// rule-site assertions can be anchored at builtin calls too (delete#k, append#k, copy#k)
+		if site := fx.callOrd[x]; site != "" && b.Name() != "len" && b.Name() != "cap" {
+			fx.siteAsserts(ps, site, "before", nil)
+		}
 		fx.builtin(ps, x, b)
 		return
 	}
